@@ -50,7 +50,6 @@ Definition is_reserved (k : string) : bool := existsb (String.eqb k) reserved.
    (design.d/C13.md) *)
 Record wf (m : cmap (T:=T)) : Prop := {
   wf_n : (hd 0%nat (m_rsh m) <> 1)%nat;                       (* not exactly one point *)
-  wf_sq : squeeze (m_rsh m) = m_rsh m;                        (* no axis of length one in the rotation array *)
   wf_mask : count_true (m_ind m) <> 0%nat;                    (* at least one point is in the data *)
   wf_xy : ~ (m_x m = None /\ m_y m = None);                   (* invariant of the constructor *)
   wf_x : forall a, m_x m = Some a -> (alen a <> 1)%nat;
@@ -58,16 +57,16 @@ Record wf (m : cmap (T:=T)) : Prop := {
   wf_pnd : NoDup (map fst (m_props m));                       (* a dict *)
   wf_pres : forall k, In k (map fst (m_props m)) -> is_reserved k = false;
   wf_plen : Forall (fun ka => (alen (snd ka) <> 1)%nat) (m_props m);
-  wf_unit : exists u, m_unit m = Some u /\ ascii_str u;
+  wf_unit : forall u, m_unit m = Some u -> ustr u;            (* None is allowed *)
   wf_ids : map fst (m_phases m) = np_unique (m_pid m);        (* listed phases = phases in use *)
   wf_phne : m_phases m <> [];
   wf_ni : forall p, In (-1, p) (m_phases m) -> p = ni_phase;  (* the not-indexed phase is the default one *)
   wf_ph : Forall wf_phase (map snd (m_phases m)) }.
 
 (* the map the reader rebuilds: everything as in m, rotations re-created from
-   the stored Euler angles (always proper), properties in name order *)
+   the stored Euler angles and improper flags, properties in name order *)
 Definition reloaded (m : cmap (T:=T)) (props' : list (string * arr T)) : cmap (T:=T) :=
-  mkMap (m_rsh m) (map (fun r => (eu2qu O (to_euler O r), false)) (m_rots m)) (m_pid m) (m_x m) (m_y m)
+  mkMap (m_rsh m) (map (reload_rot O) (m_rots m)) (m_pid m) (m_x m) (m_y m)
         (m_ind m) props' (m_unit m) (m_phases m).
 
 Lemma zip3_maps {A} (f1 f2 f3 : A -> T) l :
@@ -77,27 +76,14 @@ Proof. induction l as [|a l IH]; simpl; [reflexivity|]. now rewrite IH. Qed.
 Lemma shape_eqb'_refl s : shape_eqb' s s = true.
 Proof. induction s as [|a s IH]; simpl; [reflexivity|]. now rewrite Nat.eqb_refl. Qed.
 
-Lemma none_free_atoms i (ats : list (atom (T:=T))) :
-  forallb (fun kv : string * pv T => none_free (snd kv))
-          (map (fun ia => (zstr (fst ia), atom2dict (snd ia))) (enum_from i ats)) = true.
-Proof. revert i. induction ats as [|a ats IH]; intros i; [reflexivity|]. simpl. apply IH. Qed.
-Lemma none_free_phase (p : phase (T:=T)) : none_free (phase2dict p) = true.
+Lemma combine_maps {A B C} (f : A -> B) (g : A -> C) l :
+  combine (map f l) (map g l) = map (fun x => (f x, g x)) l.
+Proof. induction l as [|a l IH]; simpl; [reflexivity|]. now rewrite IH. Qed.
+
+Lemma step_of_nn c : not_PN (step_of O c) = true.
 Proof.
-  unfold phase2dict. cbn [none_free forallb snd].
-  destruct (ph_sg p), (ph_pg p); cbn [none_free andb]; unfold structure2dict; cbn [none_free forallb snd andb];
-    rewrite none_free_atoms; reflexivity.
-Qed.
-Lemma none_free_phases (l : list (string * pv T)) acc :
-  forallb (fun kv => none_free (snd kv)) acc = true ->
-  forallb (fun kv => none_free (snd kv)) l = true ->
-  forallb (fun kv : string * pv T => none_free (snd kv)) (dict_update acc l) = true.
-Proof.
-  unfold dict_update. revert acc. induction l as [|[k v] l IH]; intros acc Ha Hl; simpl; [exact Ha|].
-  simpl in Hl. apply andb_prop in Hl. destruct Hl as [Hv Hl]. apply IH; [|exact Hl].
-  clear IH Hl. induction acc as [|[k' v'] acc IHa]; simpl.
-  - now rewrite Hv.
-  - simpl in Ha. apply andb_prop in Ha. destruct Ha as [H1 H2].
-    destruct (String.eqb k k'); simpl; [now rewrite Hv|]. rewrite H1. now apply IHa.
+  unfold step_of. destruct c as [a|]; [|reflexivity].
+  repeat match goal with |- context [match ?x with _ => _ end] => destruct x end; reflexivity.
 Qed.
 
 Theorem load_save (ver : pystr) (m : cmap (T:=T)) :
@@ -105,7 +91,7 @@ Theorem load_save (ver : pystr) (m : cmap (T:=T)) :
   exists f props', save O ver m = Some f /\
     load O ccanon restruct fresh f = Some (reloaded m props') /\ Permutation props' (m_props m).
 Proof.
-  intros [Hn Hsq Hmask Hxy Hx Hy Hpnd Hpres Hplen [u [Hu Hua]] Hids Hphne Hni Hph].
+  intros [Hn Hmask Hxy Hx Hy Hpnd Hpres Hplen Hunit Hids Hphne Hni Hph].
   unfold save, crystalmap2dict.
   destruct (count_true (m_ind m) =? 0)%nat eqn:Ec; [apply Nat.eqb_eq in Ec; contradiction|].
   set (base := [("y"%string, match m_y m with Some a => PA a | None => PI "int" 0 end);
@@ -113,6 +99,7 @@ Proof.
                 ("phi1"%string, PA (mkArr f64 (m_rsh m) (DF (map (fun e => fst (fst e)) (map (to_euler O) (m_rots m))))));
                 ("Phi"%string, PA (mkArr f64 (m_rsh m) (DF (map (fun e => snd (fst e)) (map (to_euler O) (m_rots m))))));
                 ("phi2"%string, PA (mkArr f64 (m_rsh m) (DF (map (fun e => snd e) (map (to_euler O) (m_rots m))))));
+                ("improper"%string, PA (mkArr b8 (m_rsh m) (DB (map snd (m_rots m)))));
                 ("phase_id"%string, PA (mkArr i64 [hd 0%nat (m_rsh m)] (DI (m_pid m))));
                 ("id"%string, PA (mkArr i64 [hd 0%nat (m_rsh m)] (DI (zrange (hd 0%nat (m_rsh m))))));
                 ("is_in_data"%string, PA (mkArr b8 [hd 0%nat (m_rsh m)] (DB (m_ind m))))]).
@@ -125,25 +112,27 @@ Proof.
     cbn in Hb. cbn. tauto. }
   assert (Hpk : map fst props = map fst (m_props m)) by (unfold props; rewrite map_map; reflexivity).
   rewrite dict_update_fresh; [|rewrite Hpk; exact Hpnd|exact Hfresh].
-  rewrite Hu.
+  set (hdr := [("grid_type"%string, PS (s2p "square"));
+               ("ny"%string, PI "int" (match m_y m with Some a => asize a | None => 1 end));
+               ("nx"%string, PI "int" (match m_x m with Some a => asize a | None => 1 end));
+               ("y_step"%string, step_of O (m_y m)); ("x_step"%string, step_of O (m_x m));
+               ("rotations_per_point"%string, PI "int" (Z.of_nat (per_point m)));
+               ("scan_unit"%string, match m_unit m with Some u => PS u | None => PN end);
+               ("phases"%string, phaselist2dict (m_phases m))]).
   match goal with |- exists f p, Some ?F = Some f /\ _ => exists F end.
   (* the file is read back as the expected reading of the python dict *)
-  assert (Hnf_props : forallb (fun kv : string * pv T => none_free (snd kv)) props = true).
+  assert (Hnn_props : forallb (fun kv : string * pv T => not_PN (snd kv)) props = true).
   { unfold props. clear. induction (m_props m) as [|a l IH]; [reflexivity|]. simpl. exact IH. }
-  assert (Hnf_base : forallb (fun kv : string * pv T => none_free (snd kv)) base = true).
+  assert (Hnn_base : forallb (fun kv : string * pv T => not_PN (snd kv)) base = true).
   { unfold base. cbn [forallb snd]. destruct (m_y m), (m_x m); reflexivity. }
-  assert (Hnf_phl : none_free (phaselist2dict (m_phases m)) = true).
-  { unfold phaselist2dict. cbn [none_free]. apply none_free_phases; [reflexivity|].
-    clear. induction (m_phases m) as [|a l IH]; [reflexivity|]. cbn [map forallb fst snd]. rewrite none_free_phase. exact IH. }
   unfold load. rewrite store_roundtrip.
-  2:{ cbn [none_free forallb snd andb]. rewrite forallb_app, Hnf_base, Hnf_props, Hnf_phl.
-      destruct (m_y m), (m_x m); cbn; unfold step_of;
-        repeat match goal with |- context [match ?x with _ => _ end] => destruct x end; reflexivity. }
-  cbn [rd map fst snd]. rewrite lookup_sortk by (apply nodupb_sound; reflexivity).
+  rewrite rd_PD. rewrite lookup_rd by (apply nodupb_sound; reflexivity).
   cbn [lookup String.eqb Ascii.eqb Bool.eqb].
   (* dict2crystalmap *)
-  unfold dict2crystalmap, getD. rewrite !lookup_sortk by (apply nodupb_sound; reflexivity).
+  unfold dict2crystalmap, getD. rewrite rd_PD. rewrite !lookup_rd by (apply nodupb_sound; reflexivity).
   cbn [lookup String.eqb Ascii.eqb Bool.eqb].
+  rewrite (rd_PD hdr), (rd_PD (base ++ props)).
+  rewrite (rd_items_nn (base ++ props)) by (rewrite forallb_app, Hnn_base, Hnn_props; reflexivity).
   set (R := fun kv : string * pv T => (fst kv, rd (snd kv))).
   assert (Hnd_data : NoDup (map fst (map R (base ++ props)))).
   { assert (HR : forall l, map fst (map R l) = map fst l) by (intros l; unfold R; rewrite map_map; reflexivity).
@@ -156,12 +145,22 @@ Proof.
     rewrite (lookup_app_l _ _ _ _ Hv). reflexivity. }
   unfold getA. rewrite (Hlk "phi1"%string _ eq_refl), (Hlk "Phi"%string _ eq_refl), (Hlk "phi2"%string _ eq_refl).
   cbn [rd]. rewrite !unwrap_id by exact Hn. cbn [a_d a_sh].
-  rewrite shape_eqb'_refl. cbn [andb negb]. rewrite Hsq.
+  rewrite shape_eqb'_refl. cbn [andb negb].
+  unfold get_improper. rewrite (Hlk "improper"%string _ eq_refl).
+  cbn [rd]. rewrite !unwrap_id by exact Hn. cbn [a_d a_sh]. rewrite shape_eqb'_refl.
   (* header *)
-  unfold getS. rewrite !lookup_sortk by (apply nodupb_sound; reflexivity).
-  cbn [lookup String.eqb Ascii.eqb Bool.eqb]. rewrite (str_roundtrip_ascii _ Hua).
+  assert (Hgu : get_unit (sortk (rd_items hdr)) = Some (m_unit m)).
+  { unfold get_unit. rewrite lookup_rd by (apply nodupb_sound; reflexivity).
+    unfold hdr. cbn [lookup String.eqb Ascii.eqb Bool.eqb].
+    destruct (m_unit m) as [u|] eqn:Hu; [|reflexivity].
+    cbn [rd]. now rewrite (str_roundtrip _ (Hunit u eq_refl)). }
+  rewrite Hgu.
+  rewrite lookup_rd by (apply nodupb_sound; reflexivity).
+  unfold hdr. cbn [lookup String.eqb Ascii.eqb Bool.eqb].
   pose proof (phl_rt ccanon restruct (m_phases m)) as Hpl.
   rewrite Hids in Hpl. specialize (Hpl (np_unique_sorted _) Hph).
+  assert (Ephl : exists l, phaselist2dict (m_phases m) = PD l) by (eexists; reflexivity).
+  destruct Ephl as [pl0 Ephl]. rewrite Ephl. cbv iota. rewrite <- Ephl. clear pl0 Ephl.
   destruct (rd (phaselist2dict (m_phases m))) as [pd| | | | |]; try discriminate. rewrite Hpl.
   rewrite (Hlk "phase_id"%string _ eq_refl), (Hlk "is_in_data"%string _ eq_refl).
   cbn [rd]. rewrite !unwrap_id by exact Hn. cbn [a_d].
@@ -169,7 +168,7 @@ Proof.
   assert (Hprops : all_some (map (fun kv : string * rv T => match snd kv with RA a => Some (fst kv, a) | _ => None end)
                                  (remove_keys reserved (map R (base ++ props)))) = Some (m_props m)).
   { rewrite map_app. unfold remove_keys. rewrite filter_app.
-    replace (filter _ (map R base)) with (@nil (string * rv T)) by reflexivity. cbn [app].
+    replace (filter _ (map R base)) with (@nil (string * rv T)) by reflexivity. cbn [List.app].
     unfold props. rewrite map_map. clear - Hpres Hplen.
     induction (m_props m) as [|[k a] l IH]; [reflexivity|]. cbn [map fst snd filter R].
     assert (Hk : existsb (String.eqb k) reserved = false) by (apply Hpres; now left).
@@ -187,12 +186,12 @@ Proof.
   { rewrite (Hlk "y"%string _ eq_refl). destruct (m_y m) as [a|] eqn:E; [|reflexivity].
     cbn [rd]. now rewrite (unwrap_id _ (Hy a eq_refl)). }
   rewrite Hcx, Hcy.
-  rewrite zip3_maps, !map_map.
+  rewrite zip3_maps, !map_map, combine_maps.
   rewrite (mk_cmap_fix O ccanon restruct fresh) by assumption.
-  unfold reloaded. rewrite Hu.
+  unfold reloaded.
   match goal with |- Some (mkMap _ ?a _ _ _ _ _ _ _) = Some (mkMap _ ?b _ _ _ _ _ _ _) =>
     replace a with b; [reflexivity|] end.
-  apply map_ext. intros r. destruct (to_euler O r) as [[e0 e1] e2]. reflexivity.
+  apply map_ext. intros r. unfold reload_rot. destruct (to_euler O r) as [[e0 e1] e2]. reflexivity.
 Qed.
 
 
@@ -200,7 +199,7 @@ Qed.
    re-ordering the properties: the reloaded map is well-formed again *)
 Lemma wf_reloaded m props' : wf m -> Permutation props' (m_props m) -> wf (reloaded m props').
 Proof.
-  intros [Hn Hsq Hmask Hxy Hx Hy Hpnd Hpres Hplen Hu Hids Hphne Hni Hph] P.
+  intros [Hn Hmask Hxy Hx Hy Hpnd Hpres Hplen Hu Hids Hphne Hni Hph] P.
   constructor; cbn [reloaded m_rsh m_ind m_x m_y m_props m_unit m_pid m_phases]; auto.
   - eapply Permutation_NoDup; [apply Permutation_sym, Permutation_map, P|exact Hpnd].
   - intros k Hin. apply Hpres. eapply Permutation_in; [apply Permutation_map, P|exact Hin].
